@@ -1464,55 +1464,64 @@ Local Arguments Nat.mul : simpl never.
 Local Arguments Nat.add : simpl never.
 Local Arguments N.to_nat : simpl never.
 
+(** range requests issued so far plus the distance the store still has to go *)
+Definition inflight (pc : lpc) : nat :=
+  match pc with
+  | LApp0 (AKReq _ _) _ | LApp1 (AKReq _ _) _ _ | LApp2 (AKReq _ _) _ => 1
+  | _ => 0
+  end.
+Definition reqpot (H : N) (c : cfg) : nat := length (c_reqs c) + N.to_nat (H - rs_head (c_store c)).
+
 Lemma lstep_progress H c a :
   J c -> bounded H c -> ~ quiescent c -> good_ans c a ->
   (pot H (l_step a c) < pot H c)%nat /\ bounded H (l_step a c) /\
-  (quiescent (l_step a c) -> ss_err (c_state (l_step a c)) = None).
+  (quiescent (l_step a c) -> ss_err (c_state (l_step a c)) = None) /\
+  (reqpot H (l_step a c) + inflight (c_loop c) <= reqpot H c + inflight (c_loop (l_step a c)))%nat.
 Proof.
   intros HJ [Hb1 Hb2] Hnq Hga.
   pose proof (J_lstep c a HJ (good_honest c a Hga)) as HJ'.
   destruct HJ as [Hca Hri Hpg Hth Hmu Hl]. pose proof Hca as [Hcc Hck].
-  unfold quiescent, bounded, pot in *. revert HJ'.
+  unfold quiescent, bounded, pot, reqpot in *. revert HJ'.
   unfold l_step. destruct (c_loop c) as [| |p|from to|from to|k from to|k hs|k hs nh|k hs|oto lst|] eqn:Elp.
   - (* LIdle *) destruct (c_trig c) eqn:Etr; [|exfalso; apply Hnq; split; reflexivity].
-    intros _. cbn. rewrite ?Etr. split; [lia|]. split; [split; assumption|]. intros [E _]. discriminate E.
+    intros _. cbn. rewrite ?Etr. split; [lia|]. split; [split; assumption|]. split; [intros [E _]; discriminate E|cbn; lia].
   - (* LSync *) destruct Hl as (A & B & C & K). pose proof (rinv_head _ Hri) as Hh.
     destruct (ranges_head (c_pend c)) as [p|] eqn:Ep; intros _; cbn.
-    + split; [lia|]. split; [split; assumption|]. intros [E _]. discriminate E.
-    + split; [lia|]. split; [split; assumption|]. intros _.
+    + split; [lia|]. split; [split; assumption|]. split; [intros [E _]; discriminate E|cbn; lia].
+    + split; [lia|]. split; [split; assumption|]. split; [|cbn; lia]. intros _.
       destruct (ss_err (c_state c)) as [e|] eqn:Ee; [|reflexivity]. exfalso. apply K; [discriminate|exact Hh].
   - (* LSync1 *) destruct Hl as (A & B & C & D). pose proof (B p C) as Hp.
     destruct (N.leb_spec (h_height p) (h_height (c_cache c))); [lia|].
-    intros _. cbn. split; [lia|]. split; [split; assumption|]. intros [E _]. discriminate E.
+    intros _. cbn. split; [lia|]. split; [split; assumption|]. split; [intros [E _]; discriminate E|cbn; lia].
   - (* LFirst *)
     destruct (ranges_first_spec _ Hri) as (_ & Eall & _ & _).
     destruct (ranges_first (c_pend c)) as [|r t] eqn:Ef; intros _; cbn.
     + rewrite <- Eall. cbn [ranges_all flat_map length].
-      split; [lia|]. split; [split; [assumption|intros y []]|]. intros [E _]. discriminate E.
+      split; [lia|]. split; [split; [assumption|intros y []]|]. split; [intros [E _]; discriminate E|cbn; lia].
     + assert (El : length (ranges_all (r :: t)) = length (ranges_all (c_pend c))) by (rewrite Eall; reflexivity).
-      split; [lia|]. split; [split; [assumption|]|intros [E _]; discriminate E].
+      split; [lia|]. split; [split; [assumption|]|split; [intros [E _]; discriminate E|cbn; lia]].
       intros y Hy. apply Hb2. rewrite <- Eall. exact Hy.
   - (* LGet *) pose proof (step_get _ _ _ _ _ _ _ Hca Hri Hpg Hl) as Hs.
     destruct (c_pend c) as [|r t] eqn:EP.
-    + intros _. cbn. rewrite EP. cbn [ranges_all flat_map length]. split; [lia|]. split; [split; [assumption|intros y []]|]. intros [E _]. discriminate E.
+    + intros _. cbn. rewrite EP. cbn [ranges_all flat_map length]. split; [lia|]. split; [split; [assumption|intros y []]|]. split; [intros [E _]; discriminate E|cbn; lia].
     + destruct (range_get to r) as [[|h0 g]|]; [| |destruct Hs].
-      * intros _. cbn. rewrite EP. split; [lia|]. split; [split; assumption|]. intros [E _]. discriminate E.
+      * intros _. cbn. rewrite EP. split; [lia|]. split; [split; assumption|]. split; [intros [E _]; discriminate E|cbn; lia].
       * destruct (wrap64 (h_height from + 1) =? h_height h0); intros _; cbn; rewrite EP;
-          (split; [lia|]; split; [split; assumption|]; intros [E _]; discriminate E).
+          (split; [lia|]; split; [split; assumption|]; split; [intros [E _]; discriminate E|cbn; lia]).
   - (* LReq *)
     unfold good_ans, next_req in Hga. rewrite Elp in Hga.
     destruct (N.ltb_spec (h_height from) to) as [Hlt|Hge].
     + destruct k as [cached oto|]; [|destruct Hl as (_ & _ & _ & D & _); lia].
       destruct Hl as (A & B & -> & C). destruct Hga as (n & Hn & ->).
       cbn [crun]. rewrite Hch, (wrap_succ _ Hck), N.eqb_refl.
-      intros _. cbn. split; [lia|]. split; [split; assumption|]. intros [E _]. discriminate E.
+      intros _. cbn. split; [lia|]. split; [split; assumption|]. split; [intros [E _]; discriminate E|cbn; lia].
     + unfold after_req. destruct k as [cached oto|].
-      * intros _. cbn. split; [lia|]. split; [split; assumption|]. intros [E _]. discriminate E.
-      * unfold l_finish. intros _. cbn. split; [lia|]. split; [split; assumption|]. intros _. reflexivity.
+      * intros _. cbn. split; [lia|]. split; [split; assumption|]. split; [intros [E _]; discriminate E|cbn; lia].
+      * unfold l_finish. intros _. cbn. split; [lia|]. split; [split; assumption|]. split; [intros _; reflexivity|cbn; lia].
   - (* LApp0 *) destruct (step_app0 _ _ _ _ _ _ _ Hca Hri Hpg Hl) as [Es Hs]. rewrite Es.
-    intros _. cbn. split; [lia|]. split; [split; assumption|]. intros [E _]. discriminate E.
+    intros _. cbn. split; [lia|]. split; [split; assumption|]. split; [intros [E _]; discriminate E|cbn; lia].
   - (* LApp1 *) destruct (step_app1 _ _ _ _ _ _ _ _ Hca Hri Hpg Hl) as [Hg Hs].
-    intros _. cbn. split; [lia|]. split; [|intros [E _]; discriminate E]. split; [|assumption].
+    intros _. cbn. split; [lia|]. split; [|split; [intros [E _]; discriminate E|cbn; lia]]. split; [|assumption].
     (* the new cache is a chunk's / the cached run's last header: below a pending header or pending itself *)
     destruct k as [[cached oto|] to|oto]; cbn [Jl'] in Hl; [|destruct Hl|].
     + destruct Hl as (_ & _ & ((rest & t & Hf) & _ & _ & _ & (a0 & l0 & Ea & Ha0)) & (n & -> & Hn) & ->).
@@ -1525,17 +1534,17 @@ Proof.
   - (* LApp2 *) pose proof (step_app2 _ _ _ _ _ _ _ Hca Hri Hpg Hl) as Hs.
     destruct k as [[cached oto|] to|oto]; cbn [Jl'] in Hl; [|destruct Hl|].
     + destruct Hl as (_ & _ & _ & (n & _ & Hn & _)). destruct Hs as ([_ Hs] & _).
-      intros _. cbn. rewrite Hs. split; [lia|]. split; [split; assumption|]. intros [E _]. discriminate E.
+      intros _. cbn. rewrite Hs. split; [lia|]. split; [split; assumption|]. split; [intros [E _]; discriminate E|cbn; lia].
     + destruct Hl as ((rest & t & Hf & _ & _ & _ & Hle & _) & _ & (a0 & l0 & Ea & Ha0)).
       destruct Hs as ([_ Hs] & _).
       destruct (fsplit_hs _ _ _ _ _ Hri Hf) as (_ & Hmax & _).
       assert (h_height a0 <= h_height (last hs hdr_nil)) by (apply Hmax; rewrite Ea; left; reflexivity).
-      intros _. cbn. rewrite Hs. split; [lia|]. split; [split; assumption|]. intros [E _]. discriminate E.
+      intros _. cbn. rewrite Hs. split; [lia|]. split; [split; assumption|]. split; [intros [E _]; discriminate E|cbn; lia].
   - (* LRem *) pose proof (step_rem _ _ _ _ _ _ _ Hca Hri Hpg Hl) as Hs.
     destruct (c_pend c) as [|r t] eqn:EP; [destruct Hs|].
     destruct (range_remove oto r) as [r'|]; [|destruct Hs]. destruct Hs as (_ & _ & _ & Hlen & Hsub & _).
     intros _. cbn.
-    split; [lia|]. split; [split; [assumption|]|intros [E _]; discriminate E].
+    split; [lia|]. split; [split; [assumption|]|split; [intros [E _]; discriminate E|cbn; lia]].
     intros y Hy. apply Hb2. apply Hsub. exact Hy.
   - destruct Hl.
 Qed.
@@ -1610,21 +1619,24 @@ Theorem drain_reaches g H : forall c,
   exists n, (n <= pot H c)%nat /\
     let c' := l_iter g n c in
     quiescent c' /\ J c' /\ bounded H c' /\ (lower H c -> lower H c') /\
-    (quiescent c \/ ss_err (c_state c') = None).
+    (quiescent c \/ ss_err (c_state c') = None) /\
+    (reqpot H c' + inflight (c_loop c) <= reqpot H c)%nat.
 Proof.
   intros c. remember (pot H c) as m eqn:Em. revert c Em.
   induction m as [m IH] using lt_wf_ind. intros c Em HJ Hb Hg.
   destruct (quiescent_dec c) as [Hq|Hnq].
-  - exists 0%nat. split; [lia|]. cbn. split; [exact Hq|]. split; [exact HJ|]. split; [exact Hb|]. split; [auto|left; exact Hq].
+  - exists 0%nat. split; [lia|]. cbn. split; [exact Hq|]. split; [exact HJ|]. split; [exact Hb|]. split; [auto|]. split; [left; exact Hq|].
+    destruct Hq as [E _]. rewrite E. cbn. lia.
   - set (a := match next_req c with Some (f, to) => g f to | None => GErr end).
     pose proof (auto_good g c Hg) as Hga. fold a in Hga.
-    destruct (lstep_progress H c a HJ Hb Hnq Hga) as (Hpot & Hb' & Herr).
+    destruct (lstep_progress H c a HJ Hb Hnq Hga) as (Hpot & Hb' & Herr & Hreq).
     pose proof (J_lstep c a HJ (good_honest c a Hga)) as HJ'.
-    destruct (IH (pot H (l_step a c)) ltac:(lia) (l_step a c) eq_refl HJ' Hb' Hg) as (n & Hn & Hq' & HJ'' & Hb'' & Hlo & Hd).
+    destruct (IH (pot H (l_step a c)) ltac:(lia) (l_step a c) eq_refl HJ' Hb' Hg) as (n & Hn & Hq' & HJ'' & Hb'' & Hlo & Hd & Hr).
     exists (S n). split; [lia|]. cbn [l_iter]. unfold l_auto. fold a.
-    split; [exact Hq'|]. split; [exact HJ''|]. split; [exact Hb''|]. split.
+    split; [exact Hq'|]. split; [exact HJ''|]. split; [exact Hb''|]. split; [|split].
     + intros L. apply Hlo. apply lstep_lower; assumption.
     + right. destruct Hd as [Hq1|He]; [|exact He]. rewrite (iter_quiescent g n _ Hq1). apply Herr. exact Hq1.
+    + cbn zeta in Hr. lia.
 Qed.
 
 (** what quiescence means *)
@@ -1807,13 +1819,16 @@ Theorem reaches_target tail k es g :
   let H := newest_height c in
   exists n, (n <= pot H c)%nat /\
     let c' := l_iter g n c in
-    quiescent c' /\ c_loop c' <> LPanic /\ (waiting_after_error c \/ reached H c').
+    quiescent c' /\ c_loop c' <> LPanic /\
+    (length (c_reqs c') <= length (c_reqs c) + N.to_nat (H - rs_head (c_store c)))%nat /\
+    (waiting_after_error c \/ reached H c').
 Proof.
   intros Hb c0 Hr Hg c H.
   assert (HJ : J c) by (apply J_hist; [apply J_init; exact Hb|reflexivity|exact Hr]).
   destruct (newest_spec c HJ) as [Hbd Hlo]. fold H in Hbd, Hlo.
-  destruct (drain_reaches g H c HJ Hbd Hg) as (n & Hn & Hq & HJ' & Hbd' & Hlo' & Hd).
+  destruct (drain_reaches g H c HJ Hbd Hg) as (n & Hn & Hq & HJ' & Hbd' & Hlo' & Hd & Hrq).
   exists n. split; [exact Hn|]. cbn zeta. split; [exact Hq|]. split; [destruct Hq as [E _]; rewrite E; discriminate|].
+  split; [unfold reqpot in Hrq; cbn zeta in Hrq; lia|].
   destruct Hd as [Hqc|He].
   - rewrite (iter_quiescent g n c Hqc) in *.
     destruct (ss_err (c_state c)) as [e|] eqn:Ee.
@@ -1886,7 +1901,7 @@ Proof.
     - apply slh_newest; assumption. }
   split; [exact HH|].
   destruct (newest_spec c HJ) as [Hbd Hlo]. fold H in Hbd, Hlo.
-  destruct (drain_reaches g H c HJ Hbd Hg) as (n & Hn & Hq & HJ' & Hbd' & Hlo' & Hd).
+  destruct (drain_reaches g H c HJ Hbd Hg) as (n & Hn & Hq & HJ' & Hbd' & Hlo' & Hd & Hrq).
   exists n. split; [exact Hn|]. cbn zeta. split; [exact Hq|].
   destruct Hd as [Hqc|Herr]; [|apply quiescent_reached; auto].
   rewrite (iter_quiescent g n c Hqc) in *.
@@ -1918,7 +1933,7 @@ Lemma gapped_pending tail k es g :
   exists n, let c' := l_iter g n c in quiescent c' /\ reached ch (newest_height c) c'.
 Proof.
   intros Hb c0 Hr Hg c _ Hw.
-  destruct (reaches_target drift tv ch Hch tail k es g Hb Hr Hg) as (n & _ & Hq & _ & [Hx|Hx]); [contradiction|].
+  destruct (reaches_target drift tv ch Hch tail k es g Hb Hr Hg) as (n & _ & Hq & _ & _ & [Hx|Hx]); [contradiction|].
   exists n. split; assumption.
 Qed.
 
